@@ -327,7 +327,10 @@ def checkFn (g : RGlobals) (f : FnDecl) : List Viol :=
 structure DS where
   g : RGlobals
   viols : List Viol
-  deriving Inhabited
+  /-- registered struct declarations, in order -/
+  rtypes : List StructDecl := []
+  /-- registered constant and function declarations, in source order -/
+  rdecls : List TopStmt := []
 
 def DS.viol (rule : String) (k : ErrKind) (n : Name) (enf : Bool) (s : DS) : DS :=
   { s with viols := s.viols ++ [⟨rule, k, n, enf⟩] }
@@ -344,7 +347,8 @@ def declTypes (allNames : List Name) : Program → DS → DS
         | .array _ _ => true
       let s := if badAttr then s.viol "D2" .typeNotFound d.name false else s
       declTypes allNames rest
-        { s with g := { s.g with types := s.g.types ++ [(d.name, .struct d.name (attrsToMap d.attrs 0 .nil))] } }
+        { s with g := { s.g with types := s.g.types ++ [(d.name, .struct d.name (attrsToMap d.attrs 0 .nil))] },
+                 rtypes := s.rtypes ++ [d] }
   | _ :: rest, s => declTypes allNames rest s
 
 /-- D4 over the operands after the first one -/
@@ -380,7 +384,8 @@ def declConstsFns : Program → DS → DS
       | some n => declConstsFns rest (s.viol "D4" .constantNotFound n true)
       | none =>
         if !typeRegistered s.g d.ty.toTy then declConstsFns rest (s.viol "D5" .typeNotFound d.name true)
-        else declConstsFns rest { s with g := { s.g with consts := s.g.consts ++ [(d.name, d.ty.toTy)] } }
+        else declConstsFns rest { s with g := { s.g with consts := s.g.consts ++ [(d.name, d.ty.toTy)] },
+                                         rdecls := s.rdecls ++ [.const d] }
   | .fn f :: rest, s =>
     if (rlookup f.name s.g.funcs).isSome then declConstsFns rest (s.viol "D6" .functionAlreadyExist f.name true)
     else if !typeRegistered s.g f.result.toTy then declConstsFns rest (s.viol "D7-result" .typeNotFound f.name true)
@@ -389,7 +394,8 @@ def declConstsFns : Program → DS → DS
       | some n => declConstsFns rest (s.viol "D7-param" .typeNotFound n true)
       | none =>
         declConstsFns rest
-          { s with g := { s.g with funcs := s.g.funcs ++ [(f.name, f.params.map (·.2.toTy), f.result.toTy)] } }
+          { s with g := { s.g with funcs := s.g.funcs ++ [(f.name, f.params.map (·.2.toTy), f.result.toTy)] },
+                   rdecls := s.rdecls ++ [.fn f] }
   | _ :: rest, s => declConstsFns rest s
 
 def Program.typeNames : Program → List Name
@@ -402,10 +408,13 @@ def Program.fnDecls : Program → List FnDecl
   | .fn f :: rest => f :: Program.fnDecls rest
   | _ :: rest => Program.fnDecls rest
 
+/-- the declaration phase: registered declarations and declaration violations -/
+def declPhase (p : Program) : DS :=
+  declConstsFns p (declTypes p.typeNames p { g := { types := [], consts := [], funcs := [] }, viols := [] })
+
 /-- all rule violations in analysis order -/
 def refCheck (p : Program) : List Viol :=
-  let s := declTypes p.typeNames p { g := { types := [], consts := [], funcs := [] }, viols := [] }
-  let s := declConstsFns p s
+  let s := declPhase p
   s.viols ++ (p.fnDecls.map (checkFn s.g)).flatten
 
 /-- the violations the current analyzer enforces -/
